@@ -2,7 +2,7 @@
    edge-triggered epoll ready list with concurrent senders; scheduler = arbitrary label list). *)
 From Coq Require Import List Arith Bool ZArith.
 From IPC Require Import U64 Params RSet RSetProofs.
-From IPC Require K Prog Ideal Api ApiProofs ApiInv ApiSelect.
+From IPC Require K Prog Ideal Api ApiProofs ApiInv ApiSelect InprocSet InprocSetProofs.
 Import ListNotations.
 
 (* the batch capacity of the model is the one in the source (GENERATED constant) *)
@@ -114,3 +114,40 @@ Proof.
   vm_compute. constructor; [intros [H|[]]; discriminate|]. constructor; [intros []|constructor].
 Qed.
 End ApiLevel.
+
+(* ---- the receiver set of the in-process transport (model: InprocSet.v - two parallel vectors, ids from a counter, crossbeam Select
+   returning ONE ready member of its choice; proofs: InprocSetProofs.v), for EVERY schedule of adds, sends, hang-ups and choices ---- *)
+Module InprocLevel.
+Import InprocSet InprocSetProofs.
+Local Open Scope nat_scope.
+
+Theorem C06_inproc_ids_distinct : forall n ls s, run (init n) ls = Some s -> NoDup (map fst (added s)).
+Proof. exact iset_ids_distinct. Qed.
+Print Assumptions C06_inproc_ids_distinct.
+
+Theorem C06_inproc_member_fifo : forall n ls s id c, run (init n) ls = Some s -> In (id, c) (added s) ->
+  msgs_of id (events s) ++ queue (gchan s c) = sent (gchan s c).
+Proof. exact iset_member_fifo. Qed.
+Print Assumptions C06_inproc_member_fifo.
+
+Theorem C06_inproc_closed_once_last : forall n ls s id c, run (init n) ls = Some s -> In (id, c) (added s) ->
+  closed_count id (events s) <= 1 /\
+  (closed_count id (events s) = 1 -> ~ In (id, c) (members s) /\ msgs_of id (events s) = sent (gchan s c) /\ hup (gchan s c) = true).
+Proof. exact iset_closed_once_last. Qed.
+Print Assumptions C06_inproc_closed_once_last.
+
+Theorem C06_inproc_events_known : forall n ls s e, run (init n) ls = Some s -> In e (events s) -> ev_id e < next_id s.
+Proof. exact iset_events_known. Qed.
+Print Assumptions C06_inproc_events_known.
+
+Theorem C06_inproc_select_enabled : forall s i id c, nth_error (members s) i = Some (id, c) ->
+  ((exists s', step s (LSelect i) = Some s') <-> (queue (gchan s c) <> [] \/ hup (gchan s c) = true)).
+Proof. exact iset_select_enabled. Qed.
+Print Assumptions C06_inproc_select_enabled.
+
+Example C06_inproc_ex :
+  option_map (fun s => (events s, members s))
+    (run (init 2) [LAdd 0; LSend 0 7; LSend 1 9; LAdd 1; LHup 0; LSelect 1; LSelect 0; LSelect 0; LSend 1 4; LSelect 0])
+  = Some ([EMsg 1 9; EMsg 0 7; EClosed 0; EMsg 1 4], [(1, 1)]).
+Proof. vm_compute. reflexivity. Qed.
+End InprocLevel.
